@@ -118,6 +118,9 @@ VARIANTS = [
     ("C09", "mutant", "histogrammar/util.py", "            out = out and (self.expr == other.expr)", "            out = self.expr == other.expr", "UserFcn == forgets the name"),
     ("C09", "mutant", P + "select.py", "            and self.quantity == other.quantity\n            and self.cut == other.cut", "            and self.cut == other.cut", "Select == ignores its quantity"),
     ("C09", "neutral", "histogrammar/util.py", "            out = out and (self.expr == other.expr)\n\n        return out", "            return out and (self.expr == other.expr)\n\n        return out", "early return of the same conjunction"),
+    ("C09", "mutant", "histogrammar/util.py", "        return (x > 0.0) == (y > 0.0)", "        return True", "+inf equals -inf"),
+    ("C09", "neutral", "histogrammar/util.py", "        return (x > 0.0) == (y > 0.0)", "        return (x < 0.0) == (y < 0.0)", "sign test mirrored"),
+    ("C09", "neutral", "histogrammar/util.py", "    if math.isnan(x) and math.isnan(y):\n        return True", "    if math.isnan(y) and math.isnan(x):\n        return True", "operands of the NaN test swapped"),
     # ---------------- C10
     ("C10", "mutant", P + "bin.py", "            if self.high != other.high:\n                raise ContainerException(f\"cannot add Bins because high differs ({self.high} vs {other.high})\")\n            if len(self.values) != len(other.values):\n                raise ContainerException(\n                    f\"cannot add Bins because nubmer of values differs ({len(self.values)} vs {len(other.values)})\"\n                )\n            if len(self.values) == 0:\n                raise ContainerException(\"cannot add Bins because number of values is zero\")\n\n            out", "            if len(self.values) != len(other.values):\n                raise ContainerException(\n                    f\"cannot add Bins because nubmer of values differs ({len(self.values)} vs {len(other.values)})\"\n                )\n            if len(self.values) == 0:\n                raise ContainerException(\"cannot add Bins because number of values is zero\")\n\n            out", "high guard dropped from +"),
     ("C10", "mutant", P + "collection.py", "if self.size != other.size:", "if self.size < other.size:", "one-sided size guard"),
